@@ -99,11 +99,14 @@ impl<'a, T: GenericIntVec<T>> VecOperator<'a> for ValToNullableInt<'a, T> {
             data.clear();
             present.clear();
         }
+        // With block output the data accumulates over the chunks: the presence bit belongs at the position in the
+        // accumulated vector, not at the index within the chunk.
+        let offset = data.len();
         for (i, &val) in vals.iter().enumerate() {
             match val {
                 Val::Integer(x) => {
                     data.push(num::cast(x).unwrap());
-                    present.set(i);
+                    present.set(offset + i);
                 }
                 Val::Null => {
                     data.push(T::zero());
